@@ -340,12 +340,20 @@ def big_dask_case(N, exp, kind):
     if _TOUCH[0] or not isinstance(y.data, da.Array):
         return [("machinery:not-lazy", "fast_len computed %d blocks / returned %s (laziness is property C09; the values of a "
                  "%d-sample signal cannot be examined eagerly) | %s" % (_TOUCH[0], type(y.data).__name__, N, desc))]
-    if len(y) != exp:
-        out.append(("fast_len:length", "length %d, largest 7-smooth number <= %d is %d | %s" % (len(y), N, exp, desc)))
+    try:
+        ylen = len(y)
+        y.shape, y.stop_time
+    except Exception as e:  # noqa   (a result whose length cannot even be asked is malformed, not a harness crash)
+        return [("fast_len:malformed", "len()/shape of the lazy result raised %r | %s" % (e, desc))]
+    if ylen != exp:
+        out.append(("fast_len:length", "length %d, largest 7-smooth number <= %d is %d | %s" % (ylen, N, exp, desc)))
         return out
     if exp:
         idx = sorted({0, exp // 3, exp - 1})
-        got = [complex(np.asarray(y.data[i].compute(scheduler="synchronous")).ravel()[0]).real for i in idx]
+        try:
+            got = [complex(np.asarray(y.data[i].compute(scheduler="synchronous")).ravel()[0]).real for i in idx]
+        except Exception as e:  # noqa   (announced length and real content disagree)
+            return out + [("fast_len:malformed", "samples %s of the lazy result cannot be computed: %r | %s" % (idx, e, desc))]
         if got != [float(i) for i in idx]:
             out.append(("fast_len:samples", "samples at %s are %s | %s" % (idx, got, desc)))
     if abs(common.time_days(y.start_time) - common.time_days(z.start_time)) > 0 or common.hz(y.sample_rate) != common.hz(z.sample_rate):
